@@ -3,10 +3,16 @@ Host model, program families, run engine and oracles shared by C05 (prebuild
 followed by text generation reproduces the program) and C06 (the prebuilt
 population is well-formed and correctly typed).  DESIGN.md sections C05 / C06.
 
-Part 1 -- the HOST MODEL.  An ooaofooa metamodel (bridgepoint.ooaofooa.Loader)
-populated through the xtuml API with everything the programs refer to by name;
-description of the same model as plain python data (HOST) for the generator and
-the typing oracle.
+Part 1  host model: an ooaofooa metamodel (bridgepoint.ooaofooa.Loader) populated
+        through the xtuml API with everything the programs refer to by name, and
+        the same model as plain python data for the generator and the typer
+Part 2  static analysis of a printed program (name resolution, scoping, typing):
+        decides well-formedness and annotates the expected tree
+Part 3  run engine: one pristine host per worker, every translation in a forked
+        copy-on-write snapshot of it, hard kill on hang
+Part 4  C05 oracle          Part 5  independent constraint count
+Part 6  program families    Part 7  C06 oracle (population walk)
+Part 8  canonical population dump (used by C08)
 '''
 
 HOMES = ['function', 'bridge', 'operation', 'attribute']
@@ -36,10 +42,10 @@ ENUM = ('Color', ['Red', 'Green', 'Blue'])
 CONSTANT = ('K', 'TEN', 'integer', '10')
 # relationship number -> description
 RELS = {1: ('simple', 'A', 'B'), 2: ('reflexive', 'A', 'A'), 3: ('linked', 'A', 'B', 'C')}
-# phrase written at each end (the phrase used when navigating TO that end's class); '' = none
+# phrase written at each end (the phrase used when navigating TO that end's class)
 PHRASES = {(1, 'A'): 'is owned by', (1, 'B'): 'owns', (2, 'part'): 'next', (2, 'form'): 'prev', (3, 'A'): 'left', (3, 'B'): 'right'}
-# navigation steps: (from class, rel, phrase or None) -> (to class, many);  R1: one A -- many B;
-# R2: A 0..1 'next' -- 0..1 'prev' A;  R3: one A -- many B through C (one C per pair)
+# navigation steps: (from class, rel, to class, phrase or None) -> whether the step is to-many
+# R1: one A -- many B;  R2: A 0..1 'next' -- 0..1 'prev' A;  R3: one A -- many B through C (one C per pair)
 STEPS = {}
 for _ph in (None, 'owns'):
     STEPS['A', 1, 'B', _ph] = True
@@ -2270,3 +2276,77 @@ def c06_run(ctx, task):
             ok = ok and bool(res)
         ctx.count('layout:' + lay)
     record_coverage(ctx, dict(task, layout='-'), r[2], ok)
+
+
+# ---------------------------------------------------------------------------
+# Part 8 -- canonical dump of a prebuilt population (used by C08: programs that
+# differ only in keyword case must translate to equal populations).
+# ---------------------------------------------------------------------------
+
+DUMP_PREFIXES = ('ACT_', 'V_', 'E_')
+DUMP_SKIP = {('ACT_SMT', 'Label')}            # the source text of the statement
+
+
+def _dump_child(sub, host, text, home):
+    import bridgepoint
+    inst = host.homes[home]
+    inst.Action_Semantics_internal = text
+    inst.Suc_Pars = 1
+    try:
+        bridgepoint.prebuild_action(inst)
+    except Exception as e:
+        return ('error', '%s: %s' % (type(e).__name__, e))
+    m = host.m
+    index = {}
+
+    def idx(x):
+        kind = type(x).__name__
+        if kind not in index:
+            index[kind] = dict((id(i), n) for n, i in enumerate(m.find_metaclass(kind).select_many()))
+        return index[kind].get(id(x), -1)
+
+    by_source = {}
+    for ass in m.associations:
+        by_source.setdefault(ass.source_link.to_metaclass.kind, []).append(ass)
+    out = []
+    for kind in sorted(m.metaclasses):
+        mc = m.metaclasses[kind]
+        if not (kind.startswith(DUMP_PREFIXES) or kind == 'S_DIM'):
+            continue
+        for n, x in enumerate(mc.select_many()):
+            attrs = []
+            for name, ty in mc.attributes:
+                if ty.upper() == 'UNIQUE_ID' or name in mc.referential_attributes or (kind, name) in DUMP_SKIP:
+                    continue
+                attrs.append((name, getattr(x, name)))
+            links = []
+            for ass in by_source.get(kind, ()):
+                for other in ass.target_link.navigate(x):
+                    links.append((ass.rel_id, ass.target_link.phrase or '', ass.target_link.kind, idx(other)))
+            out.append((kind, n, tuple(attrs), tuple(sorted(links))))
+    return ('ok', out)
+
+
+def canonical_prebuild_dump(text, home='function'):
+    '''Translate *text* as the body of the function home `f(x, y)` of a fresh host with prebuild_action and
+    return an order-stable description of what was created: one entry per ACT_* / V_* / E_* (and S_DIM)
+    instance -- (class, creation index within the class, non-id attribute values except the statement's
+    source-text label, links to the instances its referential attributes designate as (association, phrase,
+    class, creation index)).  Raises ValueError when the text cannot be translated.'''
+    from mc import core
+    res = isolated(core.Ctx('dump'), _dump_child, text, home)
+    if not isinstance(res, tuple) or res[0] != 'ok':
+        raise ValueError('cannot translate %r: %s' % (text, res[1] if isinstance(res, tuple) and len(res) > 1 else res))
+    return res[1]
+
+
+def prebuild_corpus(tier='quick', home='function'):
+    '''(name, statements) of every program of the statement family that is well-formed in *home*, prelude
+    included -- programs canonical_prebuild_dump can translate.'''
+    out = []
+    for n, core_stmts in enumerate(family_statements(tier)):
+        stmts = tolist(home_params(core_stmts, home))
+        r = complete(stmts, home)
+        if r is not None:
+            out.append(('statements_%d' % n, tolist(r[0])))
+    return out
